@@ -1121,6 +1121,15 @@ impl Handler {
                     if let Some(request_id) = session.awaiting_enr.as_ref() {
                         if &response.id == request_id {
                             session.awaiting_enr = None;
+                            // This internal request has been answered: it is no longer active
+                            // and its source no longer needs to pass the packet filter.
+                            if self
+                                .active_requests
+                                .remove_request(&node_address, &response.id)
+                                .is_some()
+                            {
+                                self.remove_expected_response(node_address.socket_addr);
+                            }
                             match response.body {
                                 ResponseBody::Nodes { mut nodes, .. } => {
                                     // Received the requested ENR
